@@ -160,7 +160,7 @@ func OptionTails(s *Spec, small bool, f func(tail []string, shape string)) {
 		}
 	case "LPOP", "RPOP":
 		f(nil, "")
-		for _, n := range []string{"1", "2", "10"} {
+		for _, n := range []string{"1", "2", "10", "0", "9223372036854775807"} {
 			f([]string{n}, "count")
 		}
 	case "SCAN":
